@@ -333,6 +333,37 @@ def _wrap_iter():
 
 
 # ---------------------------------------------------------------------------------------------------------------------------
+def _wrap_tle():
+    import math
+    from beyond.io.tle import Tle
+    init = Tle.__init__
+    seen = set()
+
+    def __init__(self, text, *args, **kwargs):
+        init(self, text, *args, **kwargs)
+        try:
+            lines = [ln for ln in (text.splitlines() if isinstance(text, str) else list(text)) if str(ln).strip()]
+            l1, l2 = lines[-2].strip(), lines[-1].strip()
+            if (l1, l2) in seen or len(l1) != 69 or len(l2) != 69:
+                return
+            seen.add((l1, l2))
+
+            def sgn(x):
+                return -1 if x < 0 else 1
+            rec = {"l1": list(l1), "l2": list(l2), "norad": int(self.norad_id), "elnb": int(self.element_nb), "rev": int(self.revolutions),
+                   "nd": int(round(abs(self.ndot) / 2 * 1e8)), "ndsgn": sgn(self.ndot),
+                   "incl": int(round(math.degrees(self.i) * 1e4)), "raan": int(round(math.degrees(self.Ω) * 1e4)), "ecc": int(round(self.e * 1e7)),
+                   "argp": int(round(math.degrees(self.ω) * 1e4)), "ma": int(round(math.degrees(self.M) * 1e4)),
+                   "mm": int(round(self.n * 86400 / (2 * math.pi) * 1e8)),
+                   "epoch": [self.epoch.datetime.year % 100, self.epoch.datetime.timetuple().tm_yday,
+                             int(round(((self.epoch.datetime - self.epoch.datetime.replace(hour=0, minute=0, second=0, microsecond=0)).total_seconds()) / 86400 * 1e8))]}
+            _emit("tle", rec, always=True)
+        except Exception:
+            _err()
+
+    Tle.__init__ = __init__
+
+
 if OUT:
     _wrap_node()          # before any graph of the library is built
 
@@ -343,6 +374,7 @@ def pytest_configure(config):
         try:
             _wrap_date()
             _wrap_iter()
+            _wrap_tle()
         finally:
             _state["depth"] -= 1
 
